@@ -121,6 +121,8 @@ PerConfig ==
            /\ PrintT(<<"REPLAY", ToJson([files |-> files, opts |-> opts, expect |-> an.rule, model |-> an.model,
                                         causes |-> an.causes, loadDiv |-> an.loadDiv, shadow |-> an.shadow,
                                         commonLazy |-> an.commonLazy, visShared |-> an.visShared])>>)
+(* C03: position independence of the fixpoint, per configuration *)
+PosIndep == IsInitial => PositionIndependent(files, opts)
 (* the same without printing *)
 PerConfigQuiet == IsInitial => Theorems(Analysis(files, opts, want))
 =============================================================================
